@@ -19,6 +19,7 @@ pub const EDIT_CLASSES: &[&str] = &[
     "add_channel",
     "remove_channel",
     "channel_msg_type",
+    "channel_serde_rename",
     "add_field",
     "remove_field",
     "rename_field",
@@ -227,9 +228,20 @@ pub fn gen_edit(r: &mut Rng, class: &str, m: &Model) -> Option<(Model, String)> 
         }
         "add_channel" => {
             let n = pick(r, &cmd_names)?;
-            let ch = Chan { name: nm.fresh(r, "field"), msg: Ty::Prim(r.pick(PRIMS).to_string()) };
+            let ch = Chan { name: nm.fresh(r, "field"), msg: Ty::Prim(r.pick(PRIMS).to_string()), rename: None };
             desc = format!("add channel {} to {}", ch.name, n);
             m2.cmd_mut(&n)?.chans.push(ch);
+        }
+        "channel_serde_rename" => {
+            let with: Vec<String> = m.commands().iter().filter(|c| !c.chans.is_empty()).map(|c| c.name.clone()).collect();
+            let n = pick(r, &with)?;
+            let c = m2.cmd_mut(&n)?;
+            let new = match &c.chans[0].rename {
+                Some(_) => None,
+                None => Some(format!("{}Stream", r.pick(WORDS))),
+            };
+            desc = format!("#[serde(rename)] on channel parameter {}.{}: {:?} -> {:?}", n, c.chans[0].name, c.chans[0].rename, new);
+            c.chans[0].rename = new;
         }
         "remove_channel" | "channel_msg_type" => {
             let with: Vec<String> = m.commands().iter().filter(|c| !c.chans.is_empty()).map(|c| c.name.clone()).collect();
@@ -442,6 +454,7 @@ pub fn gen_edit(r: &mut Rng, class: &str, m: &Model) -> Option<(Model, String)> 
                 fields: vec![Field { name: nm.fresh(r, "field"), ty: Ty::Prim("String".into()), public: true, rename: None, skip: false, validate: None }],
                 rename_all: None,
                 serde: true,
+                qualified_derive: false,
             };
             let k = r.below(m2.files.len() as u64) as usize;
             m2.files[k].items.push(Item::Struct(s));
@@ -497,6 +510,7 @@ pub fn gen_edit(r: &mut Rng, class: &str, m: &Model) -> Option<(Model, String)> 
                 fields: vec![Field { name: nm.fresh(r, "field"), ty: Ty::Prim("String".into()), public: true, rename: None, skip: false, validate: None }],
                 rename_all: None,
                 serde: true,
+                qualified_derive: false,
             }));
             desc = format!("add an unreferenced serde type {}", name);
         }
@@ -507,6 +521,7 @@ pub fn gen_edit(r: &mut Rng, class: &str, m: &Model) -> Option<(Model, String)> 
                 fields: vec![Field { name: nm.fresh(r, "field"), ty: Ty::Prim("i32".into()), public: true, rename: None, skip: false, validate: None }],
                 rename_all: None,
                 serde: false,
+                qualified_derive: false,
             }));
             desc = "add a non-serde struct".into();
         }
